@@ -19,7 +19,8 @@ CLAIM = {
             "under one uninterrupted hold of the NodeState guard (no drop/re-lock in between), and &mut Channel is "
             "only obtainable through the ChannelSlot guard (who-may-call of the slot lock); (R20.3) no function releases a "
             "core lock and re-acquires the same class for writing without another guard held across the gap "
-            "(check and act under one hold); (R20.4) a function that inserts a slot into the shared channel map and "
+            "(check and act under one hold) - the check may also sit in a callee that locks and releases the class itself "
+            "and whose result is branched on; (R20.4) a function that inserts a slot into the shared channel map and "
             "afterwards writes that channel's snapshot to the store keeps the map guard until the write is done. Does not decide "
             "linearizability of outcomes (schedule-dependent values).",
     "note": "CHA over-approximates dynamic dispatch; lock identity is abstracted to the protected type (two "
@@ -176,8 +177,6 @@ def r203(ctx):
         for bi, c, cls in acq:
             by.setdefault(cls, []).append((bi, c))
         multi = {k: v for k, v in by.items() if len(v) > 1}
-        if not multi:
-            continue
         fv = fnview(ctx, b)
         held = la.held_at_blocks(b)
         guards = f["guards"]
@@ -204,8 +203,8 @@ def r203(ctx):
                         if s_.kind == "a" and s_.place.is_local() and s_.rv.op in ("ref", "use") and \
                            (s_.rv.place or (s_.rv.ops and s_.rv.ops[0].place)) is not None:
                             pl = s_.rv.place if s_.rv.op == "ref" else s_.rv.ops[0].place
-                            if pl.local in tgt and all(x == "*" for x in pl.proj):
-                                tgt.add(s_.place.local)
+                            if pl.local in tgt and (all(x == "*" for x in pl.proj) or (s_.rv.op == "ref" and s_.rv.a)):
+                                tgt.add(s_.place.local)     # reborrow, or `&mut (*guard).field`
                 acts = []
                 for bj in range(fv.n):
                     if b.cleanup[bj]:
@@ -254,6 +253,43 @@ def r203(ctx):
                            f"{c2.line}) with no other guard held across the gap: a decision taken under the first hold "
                            f"can be stale when the write happens (two concurrent requests can both pass the check)",
                            where=f"{b.file}:{c2.line}", sample=SERIALIZED.get((on, cls)))
+        # (b) the check happens inside a callee: a call whose callee locks K by itself (K not held here), whose result
+        # is branched on, followed by an acquisition of K for writing with no guard spanning the two
+        for cls, sites2 in by.items():
+            for (b2, c2) in sites2:
+                g2 = c2.dest.local
+                if not writes.get(g2):
+                    continue
+                for b1, c1 in b.calls():
+                    if c1 is c2 or c1.callee is None or c1.callee.id not in p.bodies or c1.callee.krate != b.d.krate:
+                        continue
+                    if not fv.reaches(c1.target if c1.target is not None else b1, b2):
+                        continue
+                    cal = p.bodies[c1.callee.id]
+                    if R.is_test_util(cal.name) or cls not in la.acquires(cal):
+                        continue
+                    if any(guards.get(g) == cls for g in held[b1]):
+                        continue        # K is held across the call: nested, not a gap
+                    tested = fv.result_edges(b1, c1, "ok") or fv.result_edges(b1, c1, "err") or \
+                        any(R.payload_bool_edges(fv, b1, c1))
+                    if not tested:
+                        continue
+                    between = fv.reach(b1) & {x for x in range(fv.n) if b2 in fv.reach(x)}
+                    spanning = None
+                    for g, gcls in guards.items():
+                        if g == g2:
+                            continue
+                        if all(g in held[x] for x in between if x != b1) and g in held[b2] and g in held[b1]:
+                            spanning = gcls
+                    key = f"{on}/check-in-callee/{cls}/{cal.name.rsplit('::', 1)[-1]}"
+                    if spanning:
+                        ctx.ob("R20.3", True, key, "", where=f"{b.file}:{c2.line}", sample=f"serialized by the {spanning} guard")
+                        continue
+                    ctx.ob("R20.3", (on, cls, cal.name) in SERIALIZED, key,
+                           f"`{on}` branches on the result of `{cal.name}` (line {c1.line}), which locks {cls} and releases it before "
+                           f"returning, and then locks {cls} itself for writing (line {c2.line}) with no guard held across the gap: "
+                           f"the decision can be stale when the write happens (two concurrent requests can both pass the check)",
+                           where=f"{b.file}:{c2.line}", sample=SERIALIZED.get((on, cls, cal.name)))
     ctx.floor("R20.3", "functions acquiring core locks", n_fn, 30)
     ctx.extra["functions_reacquiring_a_class"] = n_multi
 
